@@ -82,10 +82,13 @@ type TermCtx struct {
 	nextID int
 	// declared ranges of variables (name -> lo,hi)
 	T, F *Term
+	NoNarrow bool
+	// path facts: leq[{x,y}] means x <= y (unsigned) holds on the rest of this path
+	leq map[[2]int]bool
 }
 
 func NewTermCtx() *TermCtx {
-	c := &TermCtx{tab: map[termKey]*Term{}}
+	c := &TermCtx{tab: map[termKey]*Term{}, leq: map[[2]int]bool{}}
 	c.T = c.mk(&Term{op: OpConst, w: 0, c: 1})
 	c.F = c.mk(&Term{op: OpConst, w: 0, c: 0})
 	return c
@@ -259,6 +262,207 @@ func (c *TermCtx) computeRange(t *Term) {
 	}
 }
 
+// narrow rewrites a 64-bit term whose unsigned range is small into
+// zero_extend(<the same computation in k bits>): bit-blasting 64-bit adders and
+// comparators for values that are offsets < 2^17 is what made queries slow.
+// normPair brings two terms to a common representation for fact lookup
+// (zero-extensions stripped to the wider inner width).
+func (c *TermCtx) normPair(a, b *Term) (*Term, *Term) {
+	if a.w != b.w {
+		return a, b
+	}
+	ia, ib := a, b
+	if a.op == OpZext {
+		ia = a.a[0]
+	}
+	if b.op == OpZext {
+		ib = b.a[0]
+	}
+	if ia == a && ib == b {
+		return a, b
+	}
+	k := max(ia.w, ib.w)
+	if a.IsConst() {
+		if a.c > mask(k) {
+			return a, b
+		}
+		return c.Const(k, a.c), c.Zext(ib, k)
+	}
+	if b.IsConst() {
+		if b.c > mask(k) {
+			return a, b
+		}
+		return c.Zext(ia, k), c.Const(k, b.c)
+	}
+	if ia == a || ib == b {
+		// one side is not a zext: compare in the original width
+		return a, b
+	}
+	return c.Zext(ia, k), c.Zext(ib, k)
+}
+
+func (c *TermCtx) knownLeq(a, b *Term) bool {
+	if a == b || a.rhi <= b.rlo {
+		return true
+	}
+	if len(c.leq) == 0 {
+		return false
+	}
+	if c.leq[[2]int{a.id, b.id}] {
+		return true
+	}
+	x, y := c.normPair(a, b)
+	return c.leq[[2]int{x.id, y.id}]
+}
+
+func (c *TermCtx) addLeq(a, b *Term, strict bool) {
+	if a.w == 0 || a.w != b.w {
+		return
+	}
+	c.leq[[2]int{a.id, b.id}] = true
+	x, y := c.normPair(a, b)
+	c.leq[[2]int{x.id, y.id}] = true
+	// tighten ranges in place (valid for the rest of this path)
+	for _, p := range [][2]*Term{{a, b}, {x, y}} {
+		lo, hi := p[0], p[1]
+		d := uint64(0)
+		if strict {
+			d = 1
+		}
+		if hi.op != OpConst && lo.rlo+d > hi.rlo && lo.rlo+d >= lo.rlo {
+			hi.rlo = lo.rlo + d
+		}
+		if lo.op != OpConst && hi.rhi >= d && hi.rhi-d < lo.rhi {
+			lo.rhi = hi.rhi - d
+		}
+		if lo.rlo > lo.rhi || hi.rlo > hi.rhi {
+			// contradictory facts: path is infeasible; leave ranges untouched
+		}
+	}
+	// x - y >= 0 facts: Sub(p,q) <= ... handled via nonneg below
+}
+
+// AddFact records what an asserted condition tells about orderings.
+func (c *TermCtx) AddFact(t *Term) {
+	neg := false
+	if t.op == OpNot {
+		neg = true
+		t = t.a[0]
+	}
+	switch t.op {
+	case OpUlt:
+		if neg {
+			c.addLeq(t.a[1], t.a[0], false)
+		} else {
+			c.addLeq(t.a[0], t.a[1], true)
+		}
+	case OpEq:
+		if !neg && t.a[0].w > 0 {
+			c.addLeq(t.a[0], t.a[1], false)
+			c.addLeq(t.a[1], t.a[0], false)
+		}
+	case OpSlt:
+		a, b := t.a[0], t.a[1]
+		sm := uint64(1) << uint(a.w-1)
+		if neg {
+			// b <=s a
+			if b.rhi < sm && b.rlo <= b.rhi {
+				// b is non-negative, hence a is too and b <= a unsigned
+				if a.rhi >= sm {
+					a.rhi = sm - 1
+				}
+				c.addLeq(b, a, false)
+				c.nonNegSub(a)
+			}
+		} else {
+			// a <s b
+			if b.rhi < sm && a.rlo < sm && a.rhi < sm {
+				c.addLeq(a, b, true)
+			}
+		}
+	}
+}
+
+// nonNegSub: t = p - q (64-bit, p and q small non-negative) is known to be >= 0, so q <= p.
+func (c *TermCtx) nonNegSub(t *Term) {
+	if t.op == OpSub {
+		p, q := t.a[0], t.a[1]
+		lim := uint64(1) << 62
+		if p.rhi < lim && q.rhi < lim {
+			c.addLeq(q, p, false)
+			if p.rhi-q.rlo < t.rhi {
+				t.rhi = p.rhi - q.rlo
+			}
+		}
+	}
+	if t.op == OpAdd && t.a[1].IsConst() && t.a[1].c >= uint64(1)<<63 {
+		// p + (-k) >= 0  => k <= p
+		p := t.a[0]
+		k := -t.a[1].c
+		if p.rhi < uint64(1)<<62 {
+			c.addLeq(c.Const(p.w, k), p, false)
+			if p.rhi-k < t.rhi {
+				t.rhi = p.rhi - k
+				t.rlo = 0
+			}
+		}
+	}
+}
+
+func pickWidth(hi uint64) int {
+	for _, k := range []int{8, 12, 16, 20, 24, 32} {
+		if hi < uint64(1)<<uint(k) {
+			return k
+		}
+	}
+	return 64
+}
+
+func (c *TermCtx) narrow(t *Term) *Term {
+	if t.w != 64 || c.NoNarrow {
+		return t
+	}
+	switch t.op {
+	case OpAdd, OpMul, OpBOr, OpBAnd, OpBXor, OpIte, OpShl, OpSub, OpLShr, OpUDiv, OpURem:
+	default:
+		return t
+	}
+	if t.rhi >= uint64(1)<<31 {
+		return t
+	}
+	k := pickWidth(t.rhi)
+	if t.op == OpUDiv || t.op == OpURem {
+		a, b := t.a[0], t.a[1]
+		if a.rhi >= uint64(1)<<31 || b.rhi >= uint64(1)<<31 {
+			return t
+		}
+		k = pickWidth(max(a.rhi, b.rhi))
+		na, nb := c.Extract(a, k-1, 0), c.Extract(b, k-1, 0)
+		if t.op == OpUDiv {
+			return c.Zext(c.UDiv(na, nb), 64)
+		}
+		return c.Zext(c.URem(na, nb), 64)
+	}
+	if t.op == OpSub && t.a[0].rlo < t.a[1].rhi && !c.knownLeq(t.a[1], t.a[0]) {
+		return t // may wrap below zero
+	}
+	if t.op == OpSub {
+		// operands may be larger than the result: compute in the operand width
+		k = pickWidth(max(t.a[0].rhi, t.a[1].rhi))
+		if k >= 64 {
+			return t
+		}
+	}
+	if t.op == OpLShr {
+		return t
+	}
+	in := c.Extract(t, k-1, 0)
+	if in.op == OpExtract && in.a[0] == t {
+		return t
+	}
+	return c.Zext(in, 64)
+}
+
 func (c *TermCtx) Not(a *Term) *Term {
 	if a.IsConst() {
 		return c.Bool(a.c == 0)
@@ -352,7 +556,7 @@ func (c *TermCtx) Ite(cond, a, b *Term) *Term {
 	if cond.op == OpNot {
 		return c.Ite(cond.a[0], b, a)
 	}
-	return c.mk(&Term{op: OpIte, w: a.w, a: [3]*Term{cond, a, b}, na: 3})
+	return c.narrow(c.mk(&Term{op: OpIte, w: a.w, a: [3]*Term{cond, a, b}, na: 3}))
 }
 
 func (c *TermCtx) Eq(a, b *Term) *Term {
@@ -389,8 +593,13 @@ func (c *TermCtx) Eq(a, b *Term) *Term {
 		if b.op == OpZext && a.IsConst() {
 			return c.Eq(b.a[0], c.Const(b.a[0].w, a.c))
 		}
-		if a.op == OpZext && b.op == OpZext && a.a[0].w == b.a[0].w {
-			return c.Eq(a.a[0], b.a[0])
+		if a.op == OpZext && b.op == OpZext {
+			k := max(a.a[0].w, b.a[0].w)
+			return c.Eq(c.Zext(a.a[0], k), c.Zext(b.a[0], k))
+		}
+		// small-range 64-bit operands: compare in 32 bits
+		if a.w == 64 && a.rhi < 1<<31 && b.rhi < 1<<31 && (a.op == OpZext || b.op == OpZext) {
+			return c.Eq(c.Extract(a, 31, 0), c.Extract(b, 31, 0))
 		}
 		// eq(ite(c,k1,k2), k) with constants
 		if a.op == OpIte && b.IsConst() && a.a[1].IsConst() && a.a[2].IsConst() {
@@ -409,6 +618,13 @@ func (c *TermCtx) Eq(a, b *Term) *Term {
 func (c *TermCtx) bin(op Op, a, b *Term) *Term {
 	if a.w != b.w {
 		panic(fmt.Sprintf("binop %v width mismatch %d %d", opNames[op], a.w, b.w))
+	}
+	switch op {
+	case OpAdd, OpMul, OpBAnd, OpBOr, OpBXor:
+		// canonical operand order for commutative operators (constants last)
+		if !b.IsConst() && (a.IsConst() || a.id > b.id) {
+			a, b = b, a
+		}
 	}
 	return c.mk(&Term{op: op, w: a.w, a: [3]*Term{a, b}, na: 2})
 }
@@ -431,8 +647,31 @@ func (c *TermCtx) Add(a, b *Term) *Term {
 		if a.op == OpSub && a.a[1].IsConst() {
 			return c.Add(a.a[0], c.Const(a.w, b.c-a.a[1].c))
 		}
+		// a + (-k) with k <= a known: no wrap
+		if a.w == 64 && b.c >= uint64(1)<<63 {
+			k := -b.c
+			if a.rlo >= k || c.knownLeq(c.Const(64, k), a) {
+				t := c.bin(OpAdd, a, b)
+				lo := uint64(0)
+				if a.rlo >= k {
+					lo = a.rlo - k
+				}
+				if a.rhi >= k && a.rhi-k < uint64(1)<<31 {
+					t.rlo, t.rhi = lo, a.rhi-k
+					kw := pickWidth(a.rhi)
+					in := c.Sub(c.Extract(a, kw-1, 0), c.Const(kw, k))
+					if in.w == kw {
+						if in.op != OpConst && (in.rhi > t.rhi || in.rlo < t.rlo) {
+							in.rlo, in.rhi = t.rlo, t.rhi
+						}
+						return c.Zext(in, 64)
+					}
+				}
+				return t
+			}
+		}
 	}
-	return c.bin(OpAdd, a, b)
+	return c.narrow(c.bin(OpAdd, a, b))
 }
 
 func (c *TermCtx) Sub(a, b *Term) *Term {
@@ -467,7 +706,14 @@ func (c *TermCtx) Sub(a, b *Term) *Term {
 	if b.op == OpAdd && b.a[0] == a && b.a[1].IsConst() {
 		return c.Const(a.w, -b.a[1].c)
 	}
-	return c.bin(OpSub, a, b)
+	t := c.bin(OpSub, a, b)
+	if a.rlo < b.rhi && c.knownLeq(b, a) {
+		// no wrap below zero on this path
+		if a.rhi-b.rlo < t.rhi && a.rhi >= b.rlo {
+			t.rlo, t.rhi = 0, a.rhi-b.rlo
+		}
+	}
+	return c.narrow(t)
 }
 
 func (c *TermCtx) Mul(a, b *Term) *Term {
@@ -485,7 +731,7 @@ func (c *TermCtx) Mul(a, b *Term) *Term {
 			return a
 		}
 	}
-	return c.bin(OpMul, a, b)
+	return c.narrow(c.bin(OpMul, a, b))
 }
 
 // mulNoOverflowBy reports whether t is x*k (k const) with no unsigned overflow
@@ -513,7 +759,7 @@ func (c *TermCtx) UDiv(a, b *Term) *Term {
 			return x
 		}
 	}
-	return c.bin(OpUDiv, a, b)
+	return c.narrow(c.bin(OpUDiv, a, b))
 }
 
 func (c *TermCtx) URem(a, b *Term) *Term {
@@ -528,7 +774,7 @@ func (c *TermCtx) URem(a, b *Term) *Term {
 			return a
 		}
 	}
-	return c.bin(OpURem, a, b)
+	return c.narrow(c.bin(OpURem, a, b))
 }
 
 func (c *TermCtx) SDiv(a, b *Term) *Term {
@@ -590,7 +836,7 @@ func (c *TermCtx) BAnd(a, b *Term) *Term {
 	if a == b {
 		return a
 	}
-	return c.bin(OpBAnd, a, b)
+	return c.narrow(c.bin(OpBAnd, a, b))
 }
 
 func (c *TermCtx) BOr(a, b *Term) *Term {
@@ -606,7 +852,7 @@ func (c *TermCtx) BOr(a, b *Term) *Term {
 	if a == b {
 		return a
 	}
-	return c.bin(OpBOr, a, b)
+	return c.narrow(c.bin(OpBOr, a, b))
 }
 
 func (c *TermCtx) BXor(a, b *Term) *Term {
@@ -622,7 +868,7 @@ func (c *TermCtx) BXor(a, b *Term) *Term {
 	if b.IsConst() && b.c == mask(a.w) {
 		return c.BNot(a)
 	}
-	return c.bin(OpBXor, a, b)
+	return c.narrow(c.bin(OpBXor, a, b))
 }
 
 func (c *TermCtx) BNot(a *Term) *Term {
@@ -656,7 +902,7 @@ func (c *TermCtx) Shl(a, b *Term) *Term {
 			return c.Const(a.w, a.c<<b.c)
 		}
 	}
-	return c.bin(OpShl, a, b)
+	return c.narrow(c.bin(OpShl, a, b))
 }
 
 func (c *TermCtx) LShr(a, b *Term) *Term {
@@ -708,14 +954,21 @@ func (c *TermCtx) Ult(a, b *Term) *Term {
 	if a == b {
 		return c.F
 	}
-	if a.op == OpZext && b.op == OpZext && a.a[0].w == b.a[0].w {
-		return c.Ult(a.a[0], b.a[0])
+	if c.knownLeq(b, a) {
+		return c.F
+	}
+	if a.op == OpZext && b.op == OpZext {
+		k := max(a.a[0].w, b.a[0].w)
+		return c.Ult(c.Zext(a.a[0], k), c.Zext(b.a[0], k))
 	}
 	if a.op == OpZext && b.IsConst() && b.c <= mask(a.a[0].w) {
 		return c.Ult(a.a[0], c.Const(a.a[0].w, b.c))
 	}
 	if b.op == OpZext && a.IsConst() && a.c <= mask(b.a[0].w) {
 		return c.Ult(c.Const(b.a[0].w, a.c), b.a[0])
+	}
+	if a.w == 64 && a.rhi < 1<<31 && b.rhi < 1<<31 && (a.op == OpZext || b.op == OpZext) {
+		return c.Ult(c.Extract(a, 31, 0), c.Extract(b, 31, 0))
 	}
 	return c.mk(&Term{op: OpUlt, w: 0, a: [3]*Term{a, b}, na: 2})
 }
@@ -807,9 +1060,7 @@ func (c *TermCtx) Extract(a *Term, hi, lo int) *Term {
 			return c.mkBin(a.op, c.Extract(a.a[0], hi, 0), c.Extract(a.a[1], hi, 0))
 		}
 	case OpIte:
-		if a.a[1].IsConst() || a.a[2].IsConst() {
-			return c.Ite(a.a[0], c.Extract(a.a[1], hi, lo), c.Extract(a.a[2], hi, lo))
-		}
+		return c.Ite(a.a[0], c.Extract(a.a[1], hi, lo), c.Extract(a.a[2], hi, lo))
 	case OpLShr:
 		if a.a[1].IsConst() && hi+int(a.a[1].c) < a.w {
 			return c.Extract(a.a[0], hi+int(a.a[1].c), lo+int(a.a[1].c))
@@ -822,6 +1073,9 @@ func (c *TermCtx) Extract(a *Term, hi, lo int) *Term {
 			}
 			if hi < s {
 				return c.Const(w, 0)
+			}
+			if lo == 0 {
+				return c.Shl(c.Extract(a.a[0], hi, 0), c.Const(w, uint64(s)))
 			}
 		}
 	}
@@ -873,9 +1127,6 @@ func (c *TermCtx) Zext(a *Term, w int) *Term {
 	if a.op == OpZext {
 		return c.Zext(a.a[0], w)
 	}
-	if a.op == OpIte && (a.a[1].IsConst() || a.a[2].IsConst()) {
-		return c.Ite(a.a[0], c.Zext(a.a[1], w), c.Zext(a.a[2], w))
-	}
 	return c.mk(&Term{op: OpZext, w: w, a: [3]*Term{a}, na: 1})
 }
 
@@ -897,6 +1148,11 @@ func (c *TermCtx) Sext(a *Term, w int) *Term {
 
 // SelectBase reads element idx (64-bit) of the symbolic base array name.
 func (c *TermCtx) SelectBase(name string, elemW int, idx *Term) *Term {
+	// arrays are indexed by the low 32 bits (every in-range index is < 2^31; reads are
+	// only built behind a bounds obligation or a bounds guard)
+	if idx.w == 64 {
+		idx = c.Extract(idx, 31, 0)
+	}
 	return c.mk(&Term{op: OpSelect, w: elemW, name: name, a: [3]*Term{idx}, na: 1})
 }
 
@@ -972,7 +1228,7 @@ func (c *TermCtx) Script(roots []*Term) (string, []*Term, func(*Term) string) {
 	}
 	sort.Strings(an)
 	for _, n := range an {
-		fmt.Fprintf(&sb, "(declare-const %s (Array (_ BitVec 64) (_ BitVec %d)))\n", n, arrs[n])
+		fmt.Fprintf(&sb, "(declare-const %s (Array (_ BitVec 32) (_ BitVec %d)))\n", n, arrs[n])
 	}
 	named := map[int]bool{}
 	var expr func(t *Term) string
@@ -1077,7 +1333,7 @@ func (e *Emitter) Emit(sb *strings.Builder, t *Term) {
 	case OpSelect:
 		if !e.declared[t.name] {
 			e.declared[t.name] = true
-			fmt.Fprintf(sb, "(declare-const %s (Array (_ BitVec 64) (_ BitVec %d)))\n", t.name, t.w)
+			fmt.Fprintf(sb, "(declare-const %s (Array (_ BitVec 32) (_ BitVec %d)))\n", t.name, t.w)
 		}
 		e.Leaves = append(e.Leaves, t)
 		fmt.Fprintf(sb, "(define-fun t%d () %s (select %s %s))\n", t.id, sortStr(t.w), t.name, e.Ref(t.a[0]))
